@@ -379,54 +379,32 @@ class RegexCompiler:
 
     def _compile_optional(self, body: Node, greedy: bool):
         """Compile ? quantifier."""
-        # Find capture groups in body to reset when skipping
+        # Find capture groups in body to reset when the iteration is entered
         capture_groups = self._find_capture_groups(body)
 
-        # Check if body might match zero-width (e.g., lookaheads)
-        # If so, we need to reset captures if the optional group matches zero-width
-        # because per ECMAScript spec, zero-width optional matches should have
-        # undefined captures (equivalent to skipping the group)
-        need_zero_width_reset = capture_groups and self._needs_advance_check(body)
+        # Per ECMAScript (RepeatMatcher) an optional iteration that matches
+        # zero-width is rejected: the matcher backtracks into the body and
+        # finally takes the skip path, which keeps the captures it had
+        need_advance_check = self._needs_advance_check(body)
+        if need_advance_check:
+            reg = self._allocate_register()
+            self._emit(Op.SET_POS, reg)
 
         if greedy:
             # Try match first, skip as backup
-            # Reset captures first (they should be undefined if we backtrack to skip)
-            self._emit_capture_reset(capture_groups)
-
-            if need_zero_width_reset:
-                # Save position to check if body advanced
-                reg = self._allocate_register()
-                self._emit(Op.SET_POS, reg)
-
             split_idx = self._emit(Op.SPLIT_FIRST, 0)
-            self._compile_node(body)
-
-            if need_zero_width_reset:
-                # Reset captures if position didn't advance
-                min_group = min(capture_groups)
-                max_group = max(capture_groups)
-                self._emit(Op.RESET_IF_NO_ADV, reg, min_group, max_group)
-
-            self._patch(split_idx, Op.SPLIT_FIRST, self._current_offset())
         else:
             # Try skip first, match as backup
             split_idx = self._emit(Op.SPLIT_NEXT, 0)
 
-            if need_zero_width_reset:
-                # Save position to check if body advanced
-                reg = self._allocate_register()
-                self._emit(Op.SET_POS, reg)
+        # Captures are reset inside the iteration only: skipping keeps what an
+        # earlier copy of a counted repetition captured
+        self._emit_capture_reset(capture_groups)
+        self._compile_node(body)
+        if need_advance_check:
+            self._emit(Op.CHECK_ADVANCE, reg)
 
-            self._emit_capture_reset(capture_groups)
-            self._compile_node(body)
-
-            if need_zero_width_reset:
-                # Reset captures if position didn't advance
-                min_group = min(capture_groups)
-                max_group = max(capture_groups)
-                self._emit(Op.RESET_IF_NO_ADV, reg, min_group, max_group)
-
-            self._patch(split_idx, Op.SPLIT_NEXT, self._current_offset())
+        self._patch(split_idx, self.bytecode[split_idx][0], self._current_offset())
 
     def _compile_star(self, body: Node, greedy: bool, need_advance_check: bool):
         """Compile * quantifier."""
